@@ -357,6 +357,8 @@ class World:
             return True
         if self.broker is not None and self.broker.pending():
             return True
+        if self.sim.stalled():
+            return True  # a thread is sitting out an injected stall in the middle of something
         return False
 
     def settle(self, max_rounds=400):
